@@ -60,6 +60,9 @@ void dgstrs(trans_t trans, SuperMatrix *L, SuperMatrix *U, int_t *perm_r, int_t 
 #if defined(WITNESS) && defined(WIT_NSOLVE)
     /* witness twin only: a concrete run (a = b = 1, x0 = 0, corrections 2^-k: berr = 1, 1/3, 1/7, 1/15, 1/31, 1/63) with WIT_NSOLVE corrections */
     { double p = 1.0; for (i = 0; i < nsolve; ++i) p = p / 2.0; vh_assume(w[0] == p); }
+#elif defined(PINCOL0)
+    /* NRHS = 2, 1x1: the first column is pinned (a = b = 1, x0 = 0, one correction of exactly 1: berr 1 -> 0), the second is arbitrary */
+    if (col == 0) vh_assume(w[0] == 1.0);
 #elif defined(PINPREFIX)
     /* pinned-prefix query: a = b = 1, x0 = 0 and the first PINPREFIX corrections are 2^-k (each at least halves berr, so the
        loop keeps going); every later correction is arbitrary */
@@ -85,7 +88,7 @@ VH_MAIN
     for (i = 0; i < N; ++i) { R[i] = 1.0; C[i] = 1.0; }
     for (i = 0; i < N * NRHS; ++i) { b[i] = vh_double(); x[i] = vh_double(); x_in[i] = x[i]; }
     bst.lda = N; bst.nzval = b; xst.lda = N; xst.nzval = x; gx = x; gb = b; vh_xbase = x; vh_bbase = b;
-#if (defined(WITNESS) && defined(WIT_NSOLVE)) || defined(PINPREFIX)
+#if (defined(WITNESS) && defined(WIT_NSOLVE)) || defined(PINPREFIX) || defined(PINCOL0)
     vh_assume(a[0] == 1.0 && b[0] == 1.0 && x[0] == 0.0);
 #endif
     B.Stype = SLU_DN; B.Dtype = SLU_D; B.Mtype = SLU_GE; B.nrow = N; B.ncol = NRHS; B.Store = &bst; X = B; X.Store = &xst;
